@@ -23,6 +23,7 @@ class Pair:
         self.w.pair = True
         self.q = {"sd": [], "ds": []}
         self.cut: set[str] = set()
+        self.held = {"sd": [], "ds": []}   # one PDU per link taken out of the link, to be put back later (delay / reordering)
         self.d_started = False
         self.nfaults = 0
         self.ncorrupt = 0
@@ -39,7 +40,7 @@ class Pair:
         return self.d_started and self.w.dst.state.name == "IDLE"
 
     def quiet(self) -> bool:
-        return not self.q["sd"] and not self.q["ds"]
+        return not self.q["sd"] and not self.q["ds"] and not self.held["sd"] and not self.held["ds"]
 
     def done(self) -> bool:
         return self.src_closed() and self.w.dst.state.name == "IDLE" and self.quiet()
@@ -124,6 +125,15 @@ class Pair:
             q[0] = _with_data(self.w, q[0], bytes(d))
             self.ncorrupt += 1
             ok = True
+        elif kind == "hold" and q and not self.held[link]:
+            self.held[link] = [q.pop(0)]
+            ok = True
+        elif kind == "release":
+            if self.held[link]:
+                q[0:0] = self.held[link]
+                self.held[link] = []
+            self.w.env(kind, link=link, applied=True)
+            return
         elif kind == "cut":
             self.cut.add(link)
             q.clear()
@@ -156,7 +166,7 @@ class Pair:
             self.src_entity()
         elif a == "De":
             self.dst_entity()
-        elif a in ("drop", "dup", "swap", "flip", "cut"):
+        elif a in ("drop", "dup", "swap", "flip", "cut", "hold", "release"):
             self.fault(a, LINKS[x])
         elif a == "tick":
             self.tick(x)
@@ -191,6 +201,9 @@ class Pair:
                 turn, calm, idle = "S", 0, 0
                 self.turn, self.calm = turn, calm
                 continue
+            for link in ("sd", "ds"):       # a PDU still held back when the schedule is over is delivered now
+                if self.held[link] and turn == ("D" if link == "sd" else "S"):
+                    self.fault("release", link)
             if self.quiet() and calm >= 2:
                 if idle >= idle_ticks:
                     return False
